@@ -1,13 +1,24 @@
-"""Kernels of aw_transform/heartbeats.py."""
+"""Kernels of aw_transform/heartbeats.py.
+
+heartbeat_merge is translated compositionally by py2v.stmts.  heartbeat_reduce is a loop over a
+list that is built by mutation (`reduced.append`, `reduced[-1] = ...`, `events.pop(0)`); it is
+matched statement by statement against the shapes it has today and every shape is rendered by
+the list primitive it means (`py_last`, `py_set_last`, `++ [x]`); the callee, the order of its
+arguments, the sense of the `is not None` test and which branch does what are read from the
+source.  Anything else raises Fail (fail closed): the definition is then missing from
+coq/Gen/GenHeartbeat.v and the bridge lemma stops compiling."""
 import ast
 import os
 
-from py2v import Fail, find_function, stmts
+from py2v import Fail, find_function, is_skippable, stmts
+
+
+def _tree(repo):
+    return ast.parse(open(os.path.join(repo, "aw_transform/heartbeats.py")).read())
 
 
 def tr_heartbeat_merge(repo):
-    tree = ast.parse(open(os.path.join(repo, "aw_transform/heartbeats.py")).read())
-    fn = find_function(tree, "heartbeat_merge")
+    fn = find_function(_tree(repo), "heartbeat_merge")
     args = [a.arg for a in fn.args.args]
     if args != ["last_event", "heartbeat", "pulsetime"] or fn.args.vararg or fn.args.kwarg or fn.args.defaults:
         raise Fail("signature changed")
@@ -16,6 +27,128 @@ def tr_heartbeat_merge(repo):
             + body + ".\n")
 
 
+def _is_name(e, n):
+    return isinstance(e, ast.Name) and e.id == n
+
+
+def _is_last_of(e, lst):
+    """<lst>[-1]"""
+    if not (isinstance(e, ast.Subscript) and _is_name(e.value, lst)):
+        return False
+    s = e.slice
+    return isinstance(s, ast.UnaryOp) and isinstance(s.op, ast.USub) and isinstance(s.operand, ast.Constant) \
+        and s.operand.value == 1 and type(s.operand.value) is int
+
+
+def _append_call(s, lst):
+    """`<lst>.append(X)` as a statement -> X"""
+    if isinstance(s, ast.Expr) and isinstance(s.value, ast.Call) and isinstance(s.value.func, ast.Attribute) \
+            and s.value.func.attr == "append" and _is_name(s.value.func.value, lst) \
+            and len(s.value.args) == 1 and not s.value.keywords:
+        return s.value.args[0]
+    return None
+
+
+def tr_heartbeat_reduce(repo):
+    fn = find_function(_tree(repo), "heartbeat_reduce")
+    a = fn.args
+    if [x.arg for x in a.args] != ["events", "pulsetime"] or a.vararg or a.kwarg or a.defaults or a.kwonlyargs \
+            or fn.decorator_list:
+        raise Fail("signature of heartbeat_reduce changed")
+    body = [s for s in fn.body if not is_skippable(s)]
+    if len(body) != 4:
+        raise Fail("heartbeat_reduce no longer has the four statements init / first / loop / return")
+    init, first, loop, ret = body
+    # reduced = []
+    if not (isinstance(init, ast.Assign) and len(init.targets) == 1 and isinstance(init.targets[0], ast.Name)
+            and isinstance(init.value, ast.List) and not init.value.elts):
+        raise Fail("expected `<acc> = []`")
+    acc = init.targets[0].id
+    # if events: reduced.append(events.pop(0))
+    if not (isinstance(first, ast.If) and _is_name(first.test, "events") and not first.orelse and len(first.body) == 1):
+        raise Fail("expected `if events: <acc>.append(events.pop(0))`")
+    x = _append_call(first.body[0], acc)
+    if not (isinstance(x, ast.Call) and isinstance(x.func, ast.Attribute) and x.func.attr == "pop"
+            and _is_name(x.func.value, "events") and len(x.args) == 1 and not x.keywords
+            and isinstance(x.args[0], ast.Constant) and x.args[0].value == 0 and type(x.args[0].value) is int):
+        raise Fail("expected events.pop(0) as the first element")
+    # for heartbeat in events:
+    if not (isinstance(loop, ast.For) and isinstance(loop.target, ast.Name) and _is_name(loop.iter, "events")
+            and not loop.orelse):
+        raise Fail("expected `for <hb> in events:`")
+    hb = loop.target.id
+    lb = [s for s in loop.body if not is_skippable(s)]
+    if len(lb) != 2 or not isinstance(lb[0], ast.Assign) or not isinstance(lb[1], ast.If):
+        raise Fail("loop body is no longer `m = heartbeat_merge(...); if ...: ... else: ...`")
+    asg, iff = lb
+    if not (len(asg.targets) == 1 and isinstance(asg.targets[0], ast.Name) and isinstance(asg.value, ast.Call)
+            and _is_name(asg.value.func, "heartbeat_merge") and not asg.value.keywords and len(asg.value.args) == 3):
+        raise Fail("expected `<m> = heartbeat_merge(a, b, c)`")
+    m = asg.targets[0].id
+    rendered = []
+    for arg in asg.value.args:
+        if _is_last_of(arg, acc):
+            rendered.append("last")
+        elif _is_name(arg, hb):
+            rendered.append("heartbeat")
+        elif _is_name(arg, "pulsetime"):
+            rendered.append("pulsetime")
+        else:
+            raise Fail("unsupported argument of heartbeat_merge: " + ast.dump(arg)[:60])
+    if "last" not in rendered:
+        raise Fail("heartbeat_merge is no longer called on <acc>[-1]")
+    # if merged is not None: / if merged is None:
+    t = iff.test
+    if not (isinstance(t, ast.Compare) and _is_name(t.left, m) and len(t.ops) == 1
+            and isinstance(t.ops[0], (ast.IsNot, ast.Is)) and isinstance(t.comparators[0], ast.Constant)
+            and t.comparators[0].value is None):
+        raise Fail("expected `<m> is not None` / `<m> is None`")
+    some_branch, none_branch = (iff.body, iff.orelse) if isinstance(t.ops[0], ast.IsNot) else (iff.orelse, iff.body)
+
+    def branch(stmts_, bound):
+        ss = [s for s in stmts_ if not is_skippable(s)]
+        if len(ss) != 1:
+            raise Fail("a branch of the loop is no longer one statement")
+        s = ss[0]
+        val = {hb: "heartbeat"}
+        if bound:
+            val[m] = "merged"
+        x = _append_call(s, acc)
+        if x is not None:
+            if isinstance(x, ast.Name) and x.id in val:
+                return f"(reduced ++ [{val[x.id]}])"
+            raise Fail("unsupported appended value")
+        if isinstance(s, ast.Assign) and len(s.targets) == 1 and _is_last_of(s.targets[0], acc) \
+                and isinstance(s.value, ast.Name) and s.value.id in val:
+            return f"(py_set_last reduced {val[s.value.id]})"
+        raise Fail("unsupported statement in a branch of the loop: " + ast.dump(s)[:60])
+
+    some_txt, none_txt = branch(some_branch, True), branch(none_branch, False)
+    if not (isinstance(ret, ast.Return) and _is_name(ret.value, acc)):
+        raise Fail("expected `return <acc>`")
+    return (
+        "Definition py_last {A} (l : list A) : option A := match rev l with [] => None | x :: _ => Some x end.\n"
+        "Definition py_set_last {A} (l : list A) (x : A) : list A := removelast l ++ [x].\n"
+        "Fixpoint gen_reduce_loop (pulsetime : Z) (reduced events : list event) : res (list event) :=\n"
+        "  match events with\n"
+        "  | [] => Ok reduced\n"
+        "  | heartbeat :: events' =>\n"
+        "      match py_last reduced with\n"
+        "      | None => Err IndexError\n"
+        "      | Some last =>\n"
+        f"          match gen_heartbeat_merge {' '.join(rendered)} with\n"
+        f"          | Some merged => gen_reduce_loop pulsetime {some_txt} events'\n"
+        f"          | None => gen_reduce_loop pulsetime {none_txt} events'\n"
+        "          end\n"
+        "      end\n"
+        "  end.\n"
+        "Definition gen_heartbeat_reduce (events : list event) (pulsetime : Z) : res (list event) :=\n"
+        "  match events with\n"
+        "  | [] => gen_reduce_loop pulsetime [] []\n"
+        "  | first :: events' => gen_reduce_loop pulsetime ([] ++ [first]) events'\n"
+        "  end.\n")
+
+
 KERNELS = {
-    "GenHeartbeat": [("heartbeat_merge", tr_heartbeat_merge)],
+    "GenHeartbeat": [("heartbeat_merge", tr_heartbeat_merge), ("heartbeat_reduce", tr_heartbeat_reduce)],
 }
